@@ -236,8 +236,41 @@ func runC16(c *Ctx) {
 			_, ok := hasLit(rs.State, mustRe(`^!` + PH + `$|^!types\.BloomLookup\(|^len\(.*\) (> 0|!= 0)$`))
 			c.Ob("C16-R2", "bloomFilter rejects only when a non-empty criterion has no member in the bloom", c.Position(rs.Ret.Pos()), ok, strings.Join(guardLits(rs.State), "; "))
 		}
+		// RPC entry: a JSON null inside a positional alternatives list turns the whole position into a wildcard; the
+		// scan of that list must stop there, or later alternatives re-create a concrete list and logs are lost
+		ujFn := c.Fn("aqua/filters:(*FilterCriteria).UnmarshalJSON")
+		fuj := c.Facts(ujFn)
+		nNil := 0
+		for _, b := range ujFn.Blocks {
+			for _, ins := range b.Instrs {
+				stI, ok := ins.(*ssa.Store)
+				if !ok || !isNilConst(stI.Val) {
+					continue
+				}
+				ia, ok := stI.Addr.(*ssa.IndexAddr)
+				if !ok || !strings.HasSuffix(fuj.tr.term(nil, ia.X, 0), ".Topics") {
+					continue
+				}
+				nNil++
+				// loop heads dominating the store, innermost first
+				var inner, outer *ssa.BasicBlock
+				for h := range fuj.loopHead {
+					if !h.Dominates(b) || h == b {
+						continue
+					}
+					if inner == nil || inner.Dominates(h) {
+						outer, inner = inner, h
+					} else if outer == nil || outer.Dominates(h) {
+						outer = h
+					}
+				}
+				okBrk := inner != nil && outer != nil && !reaches(b.Succs[0], inner, outer)
+				c.Ob("C16-R2", "FilterCriteria.UnmarshalJSON: a null alternative makes the position a wildcard and ends the scan of that list", c.Position(stI.Pos()), okBrk && len(b.Succs) == 1, "")
+			}
+		}
+		c.Ob("C16-R2", "FilterCriteria.UnmarshalJSON has the null-alternative case", c.FnPos(ujFn), nNil == 1, fmt.Sprintf("%d", nNil))
 	})
-	c.Min("C16-R2", 14)
+	c.Min("C16-R2", 16)
 
 	c.Rule("C16-R3", "bit-index agreement between bloom9 and the bloom-bits index; consistent range split", func() {
 		b9 := c.Fn("core/types:bloom9")
